@@ -472,6 +472,10 @@ class GrammarGen:
                         alts.insert(self.rng.randrange(len(alts) + 1), self.terminal([], allow_ref=False))
                     if self.chance(0.3) and len(below) >= 1:
                         alts.append(Seq([Str(self.pick(self.o["lits"])), Ref(self.pick(below))]))
+                    if self.chance(0.35):
+                        # an alternative made of plain matches only: yields the concatenated text
+                        alts.insert(self.rng.randrange(len(alts) + 1),
+                                    Seq([Str(self.pick(["[", "<", "un"])), Str(self.pick(["]", ">", "int"]))]))
                     body = Alt(alts) if len(alts) > 1 else alts[0]
                 if kind == "common" and i > 0 and self.chance(0.3):
                     # recursion back to this or an earlier rule (possibly an alias rule), guarded by a terminal
